@@ -9,7 +9,7 @@ class NNS(V.Family):
     props = ("C10", "C11", "C12")
     driver_pkg = "nns"
     monitor = ("NNSTrace.tla", "NNSTrace.cfg")
-    step_keys = ("act", "S", "via", "n", "o", "m", "x", "ty", "d")
+    step_keys = ("act", "S", "via", "n", "o", "m", "x", "ty", "d", "aux")
     reset_keys = ("cn", "src")
     assume = [
         "neo-go v0.107.0 compiler/VM/ledger/neotest are faithful to the production platform (transaction atomicity on FAULT, "
